@@ -511,6 +511,8 @@ def gen_trace(rng, maxlen, n_items):
         t = small_item(rng)
         g.inst(t)
         g.rebuild(t)                                   # warm
+        if rng.random() < 0.4:                         # wrong abstract class for a cached item: TypeError, warm or not
+            g.emit('Parameter' if t[0] in 'APQOp' else 'Sentence', [ident_pv(t)], None, 'bad')
         if rng.random() < 0.3:
             g.bad()
         for _ in range(rng.choice([0, 1, maxlen, maxlen + 1])):
